@@ -66,7 +66,7 @@ claimed = {
              ref='3 C16'),
  'C17': dict(tech='contract-based deductive verification of panic freedom (index, slice, nil, type assertion obligations over go/ssa, z3/cvc5) for every input string; bounded exhaustive execution (labelled bounded) for the round-trip, override and rejection claims',
              text='Proved for all input strings: every generated index, slice, nil-dereference and type-assertion obligation of ParseSimple, Parse, setValue, FormatSimple, FormatURI and tagToField, so the simple-form tokenizer cannot panic whatever the input. The round trips through the URI and simple forms, alias override order, last-value-wins and unknown-key rejection depend on net/url, reflect and strconv, which are outside the generator; they are decided only on a stated finite domain by executing the real functions; that part is bounded, not proved.',
-             note='Bounded part: 25 boundary texts (URI metacharacters, %, KEY, invalid UTF-8, control bytes) for the URI form, 24 texts of the documented alphabet for the simple form, all strings over a 12-symbol alphabet to length 4 (quick) / 5 (thorough) plus 20000 seeded random strings for totality. Library contracts (strings, net/url, reflect, fmt) are assumed; string lengths are assumed at most 2^62. ParseURI obligations needing net/url facts (non-empty value lists, Parse result non-nil, target having hostname/port fields) are unclaimed. Two genuine defects were repaired (ParseSimple quotation handling; FormatURI KEY substring).',
+             note='Bounded part: 25 boundary texts (URI metacharacters, %, KEY, invalid UTF-8, control bytes) for the URI form, 24 texts of the documented alphabet for the simple form, all strings over a 12-symbol alphabet to length 4 (quick) / 5 (thorough) plus 20000 seeded random strings for totality. Library contracts (strings, net/url, reflect, fmt) are assumed; string lengths are assumed at most 2^48. ParseURI obligations needing net/url facts (non-empty value lists, Parse result non-nil, target having hostname/port fields) are unclaimed. Two genuine defects were repaired (ParseSimple quotation handling; FormatURI KEY substring).',
              ref='3 C17'),
  'C18': dict(tech='contract-based deductive verification of the sequential methods (pre/postconditions, type invariants, frame), VCs from go/ssa, z3/cvc5',
              text='Sequential contracts of the name pool are proved for all inputs: the minting closure returns a fresh cell holding counter+1, Acquire returns a fresh Name with a non-nil id, Release clears the Name, and releasing nil or an already released Name is a no-op so no nil id enters the pool. Proof level for these per-method statements.',
